@@ -17,8 +17,10 @@ def entry_bodies(ctx, rep, names):
     return out
 
 
-def run_inventory(ctx, rep, rule, entries, triage):
+def run_inventory(ctx, rep, rule, entries, triage, only=None):
     sites, reach = panics.inventory(ctx, entries)
+    if only is not None:
+        sites = [s_ for s_ in sites if only(s_)]
     seen_gen = {}
     n_auto = n_tri = 0
     for s in sorted(sites, key=lambda s: s.key):
